@@ -22,7 +22,18 @@ pub enum CorpusErr {
 }
 
 fn emit(out: &mut Vec<Item>, label: String, origin: Origin, cfg: Option<&BuildCfg>, pkg: &rpm::Package) -> Result<(), CorpusErr> {
-    match guard(|| pkg_bytes(pkg)) {
+    // every other item is collected through a writer that implements write()/flush() only and takes
+    // five bytes per call: what such a writer receives is "the emitted package" just as well
+    let through_plain_writer = out.len() % 2 == 1;
+    let written = guard(|| {
+        if through_plain_writer {
+            let mut w = crate::util::PlainWriter { out: Vec::new(), max: 5 };
+            pkg.write(&mut w).map(|_| w.out)
+        } else {
+            pkg_bytes(pkg)
+        }
+    });
+    match written {
         Ok(Ok(bytes)) => {
             out.push(Item { label, origin, cfg: cfg.cloned(), pkg: pkg.clone(), bytes });
             Ok(())
